@@ -276,16 +276,21 @@ func ruleWatcherReportsCtxErr(c *chk.Ctx, owner string) {
 		n++
 		okAll := true
 		found := false
-		ir.Instrs(f, func(ins ssa.Instruction) {
+		isCtxErr := func(v ssa.Value) bool {
+			inv, isCall := ir.NormCell(v).(*ssa.Call)
+			return isCall && inv.Call.IsInvoke() && inv.Call.Method.Name() == "Err" && ir.NormCell(inv.Call.Value) == ctxParam
+		}
+		c.P.ExtInstrs(f, func(ins ssa.Instruction) {
 			call, ok := ins.(*ssa.Call)
 			if !ok || call.Call.StaticCallee() == nil || call.Call.StaticCallee().Name() != "ErrorCode" {
 				return
 			}
 			found = true
-			arg := ir.NormCell(call.Call.Args[0])
-			inv, isCall := arg.(*ssa.Call)
-			if !isCall || !inv.Call.IsInvoke() || inv.Call.Method.Name() != "Err" || ir.NormCell(inv.Call.Value) != ctxParam {
-				okAll = false
+			// the classified value is ctx.Err() of the watched context, possibly handed to a helper
+			for _, src := range c.P.SourcesStop(call.Call.Args[0], isCtxErr) {
+				if !isCtxErr(src) {
+					okAll = false
+				}
 			}
 		})
 		c.Check(found && okAll, "TABLE.ctxerr", f, owner+" watcher reports the context's own error", f.Pos(), "the code of the synthetic reply is ErrorCode(ctx.Err()) of the watched context", "the watcher classifies something other than the watched context's Err() (e.g. its cause): the caller would not get context.Canceled / DeadlineExceeded")
@@ -298,7 +303,7 @@ func ruleWatcherReportsCtxErr(c *chk.Ctx, owner string) {
 // ruleHeaderLoopExits: the header loop is left (towards the body) only on the
 // blank-line edge.
 func ruleHeaderLoopExits(c *chk.Ctx) {
-	for _, f := range chanMethods(c, "Recv") {
+	for _, f := range pkgFuncs(c, c.M.ChanPkg) {
 		var rd *ssa.Call
 		ir.Instrs(f, func(ins ssa.Instruction) {
 			if call, ok := ins.(*ssa.Call); ok && ir.IsCallTo(&call.Call, "(*bufio.Reader).ReadString", "(*bufio.Reader).ReadLine", "(*bufio.Reader).ReadBytes") && ir.InCycle(call.Block()) {
@@ -328,7 +333,7 @@ func ruleHeaderLoopExits(c *chk.Ctx) {
 				}
 				if len(s.Instrs) > 0 {
 					if _, isRet := s.Instrs[len(s.Instrs)-1].(*ssa.Return); isRet && len(s.Succs) == 0 && returnsError(s) {
-						continue
+						continue // an error exit
 					}
 				}
 				n++
@@ -417,10 +422,7 @@ func ruleLoopSuccessReachesFinish(c *chk.Ctx) {
 	if loop == nil {
 		return
 	}
-	for _, g := range c.P.Funcs {
-		if g.Parent() != loop {
-			continue
-		}
+	for _, g := range pkgFuncs(c, c.M.ServerPkg) {
 		var assigner *ssa.Call
 		ir.Instrs(g, func(ins ssa.Instruction) {
 			if call, ok := ins.(*ssa.Call); ok && call.Call.IsInvoke() && call.Call.Method.Name() == "Assigner" {
@@ -602,5 +604,41 @@ func ruleStopResultInvoked(c *chk.Ctx) {
 			}
 		}
 		c.Check(invoked == 1, "HOOK.stop", s.Caller, "stop result invoked", call.Pos(), "the function returned by the stop function is invoked exactly once by this caller", fmt.Sprintf("the function returned by the stop function is invoked %d times by this caller: OnStop would be lost or repeated", invoked))
+	}
+}
+
+// ruleNullErrorIsAbsent: the member parser never installs a fresh error object
+// for the "error" member without having excluded the JSON null (a reply
+// {"result":…,"error":null} carries no error).
+func ruleNullErrorIsAbsent(c *chk.Ctx) {
+	n := 0
+	for _, f := range pkgFuncs(c, c.M.Pkg) {
+		if ir.RecvNamed(f) != c.M.Jmessage || f.Signature.Params().Len() != 1 || f.Signature.Params().At(0).Type().String() != "[]byte" {
+			continue
+		}
+		n++
+		bad := ""
+		ir.Instrs(f, func(ins ssa.Instruction) {
+			st, ok := ins.(*ssa.Store)
+			if !ok || !chk.IsField(st.Addr, c.M.JE) {
+				return
+			}
+			if _, fresh := st.Val.(*ssa.Alloc); !fresh {
+				return
+			}
+			nullExcluded := false
+			for _, cd := range ir.CondsAt(st.Block()) {
+				if call, ok := cd.V.(*ssa.Call); ok && !cd.Truth && call.Call.StaticCallee() != nil && call.Call.StaticCallee().Name() == "isNull" {
+					nullExcluded = true
+				}
+			}
+			if !nullExcluded {
+				bad = c.P.Pos(st.Pos())
+			}
+		})
+		c.Check(bad == "", "TABLE.null", f, "a null error member is no error", f.Pos(), "the parser installs an error object only by decoding into the field itself (null leaves it nil) or after excluding null", "the parser installs a fresh error object at "+bad+" without excluding null: a reply carrying \"error\":null next to its result would be reported as an error")
+	}
+	if n == 0 {
+		c.Undecided("TABLE.null", nil, "member parser", 0, "member parser not found")
 	}
 }
